@@ -26,10 +26,9 @@ Definition as_u8 (z : Z) : Z := z mod 256.                       (* `x as u8` fo
 
 Definition rbind (r : res) (f : Z -> res) : res := match r with Ok z => f z | Err k => Err k end.
 
-(* T::Native::usize_as(10).pow_checked(k) / pow_wrapping(k) (square-and-multiply in the source; the
+(* T::Native::usize_as(10).pow_checked(k) (square-and-multiply in the source; the
    intermediate powers of a base >= 1 never exceed the final power) *)
 Definition pow10_checked (H : Z) (k : Z) : res := let z := 10 ^ k in if in_range true H z then Ok z else Err E_OVERFLOW.
-Definition pow10_wrapping (H : Z) (k : Z) : Z := wrap true H (10 ^ k).
 
 (* validate_decimal_precision_and_scale *)
 Definition validate_ps (maxp maxs p s : Z) : bool :=
@@ -79,9 +78,11 @@ Definition decimal_op (H maxp maxs : Z) (op : dop) (l_s r_s : bool) (p1 s1 p2 s2
   | DRem =>
       let rs := Z.max s1 s2 in
       let rp := Z.min (as_u8 (sat_i8 (rs + Z.min (p1 - s1) (p2 - s2)))) maxp in
-      let l_mul := pow10_wrapping H (rs - s1) in
-      let r_mul := pow10_wrapping H (rs - s2) in
-      finish maxp maxs (try_op (decimal_row H op false l_mul r_mul) l_s r_s l r) rp rs
+      (* since /repo 9e1df4d (F17) the multipliers are computed with pow_checked(..)? as for add/sub *)
+      match pow10_checked H (rs - s1) with Err k => DErr k | Ok l_mul =>
+      match pow10_checked H (rs - s2) with Err k => DErr k | Ok r_mul =>
+        finish maxp maxs (try_op (decimal_row H op false l_mul r_mul) l_s r_s l r) rp rs
+      end end
   end.
 
 (* ------------------------------------------------------------------ specification *)
